@@ -1,4 +1,5 @@
 """C08 - row equivariance and independence from irrelevant frame structure (DESIGN.md 3, C08)."""
+import copy
 import itertools
 
 import numpy as np
@@ -28,6 +29,7 @@ POOL = [
     "y ~ (0 + f|g)", "y ~ (scale(x)|g)", "y ~ x + (x|g:h)", "y ~ (1|C(k))", "y ~ (center(x) + f|g) + (1|h)", "o ~ x + f",
     "f ~ scale(x)", "o[a] ~ x", "binary(f, 'b') ~ x", "y ~ binary(f) + x", "y ~ f + g + f:g:x", "y ~ bs(x, df=5, intercept=True):g",
     "y ~ minmax(x) + (minmax(z)|g)", "y ~ scale(xb)", "y ~ center(xb) + (scale(xb)|g)", "y ~ I(np.log(x) * z)", "y ~ {center(x) + z}", "y ~ {x / np.sqrt(z)}", "y ~ scale(np.log(x) + z) + I(z - np.exp(x / 10))", "y ~ I(f)", "y ~ 0 + up(f):x", "y ~ x + (x|up(g))", "y ~ (0 + I(f)|g)",
+    "y ~ bs(xt, df=4) + f", "y ~ poly(xt, 2):g + (bs(xt, df=3)|g)",  # a covariate with tied values
     "y ~ binary(cs) + x", "binary(cs) ~ x", "y ~ cs", "y ~ (1|cs)",  # values that differ only in case
     "y ~ 0 + u", "y ~ x + (1|u)", "y ~ (0 + x|u) + f",  # an observation-level factor: as many levels as rows
 ]
@@ -83,13 +85,13 @@ def snapshot(dm, probe):
             continue
         e = {"m": np.asarray(M.design_matrix, dtype=float)}
         if nm == "response":
-            e["levels"] = M.levels
+            e["levels"] = None if M.levels is None else list(M.levels)
             e["kind"] = M.kind
             e["labels"] = list(M.as_dataframe().columns)
         else:
             e["slices"] = {k: (v.start, v.stop) for k, v in M.slices.items()}
             e["labels"] = {k: list(t.labels) for k, t in M.terms.items()}
-            e["levels"] = {k: (getattr(t, "levels", None) if nm == "common" else t.groups) for k, t in M.terms.items()}
+            e["levels"] = {k: copy.deepcopy(getattr(t, "levels", None) if nm == "common" else t.groups) for k, t in M.terms.items()}  # (own copies)
             e["probe"] = np.asarray(M.evaluate_new_data(probe).design_matrix, dtype=float)
         s[nm] = e
     return s
@@ -199,6 +201,14 @@ def check_case(case, acc):
                     if got.shape != want.shape or not np.allclose(got, want, rtol=1e-9, atol=1e-12, equal_nan=True):
                         problems.append(("rows-permuted", f"{nm}.evaluate_new_data on the probe rows in order {list(p)} is not the row-permuted result of the probe"))
                         break
+        # the lists the first design hands out are the caller's: reordering them must not reach any design built later
+        for M in (dm0.response, dm0.common, dm0.group):
+            if M is None:
+                continue
+            handed = [getattr(M, "levels", None)] + [getattr(t, "levels", None) for t in getattr(M, "terms", {}).values()] + [getattr(getattr(t, "factor", None), "levels", None) for t in getattr(M, "terms", {}).values()]
+            for lst in handed:
+                if isinstance(lst, list) and len(lst) > 1:
+                    lst.reverse()
         # a later frame holding unseen levels (mode 'silent'): its index labels and its row order play no role either
         if f not in ENVONLY:
             import formulae
